@@ -216,18 +216,16 @@ func (f *aggrMinFunc) Update(kv KVPair, args []Expression, ctx *ExecuteCtx) erro
 		f.isFloat = isFloat
 		return nil
 	}
-	if f.isFloat {
-		if f.fmin > fval {
-			f.imin = ival
-			f.fmin = fval
-			f.isFloat = isFloat
-		}
-	} else {
-		if f.imin > ival {
-			f.imin = ival
-			f.fmin = fval
-			f.isFloat = isFloat
-		}
+	// Integers are compared exactly, as soon as one side is a float the
+	// float values decide (2.5 must not lose against 2 by its integer part)
+	smaller := f.fmin > fval
+	if !f.isFloat && !isFloat {
+		smaller = f.imin > ival
+	}
+	if smaller {
+		f.imin = ival
+		f.fmin = fval
+		f.isFloat = isFloat
 	}
 	return nil
 }
@@ -276,18 +274,16 @@ func (f *aggrMaxFunc) Update(kv KVPair, args []Expression, ctx *ExecuteCtx) erro
 		f.isFloat = isFloat
 		return nil
 	}
-	if f.isFloat {
-		if f.fmax < fval {
-			f.imax = ival
-			f.fmax = fval
-			f.isFloat = isFloat
-		}
-	} else {
-		if f.imax < ival {
-			f.imax = ival
-			f.fmax = fval
-			f.isFloat = isFloat
-		}
+	// Integers are compared exactly, as soon as one side is a float the
+	// float values decide (2.5 must not lose against 2 by its integer part)
+	larger := f.fmax < fval
+	if !f.isFloat && !isFloat {
+		larger = f.imax < ival
+	}
+	if larger {
+		f.imax = ival
+		f.fmax = fval
+		f.isFloat = isFloat
 	}
 	return nil
 }
